@@ -260,11 +260,9 @@ func ObsSearch(srs *core.SearchResults) map[string][]string {
 			bss = append(bss, CanonSet(map[string]interface{}(bs)))
 		}
 		sort.Strings(bss)
-		key := sr.Id
-		if _, dup := out[key]; dup {
-			key = key + "#dup"
-		}
-		out[key] = bss
+		// equal ids in a location and an ancestor: one multiset per id
+		out[sr.Id] = append(out[sr.Id], bss...)
+		sort.Strings(out[sr.Id])
 	}
 	return out
 }
